@@ -131,6 +131,17 @@ def r04_1(ctx, fx):
         ok = bool(rng) and bool(mn) and all(mn[0].dest[0] in slice_locals(fn, s["rv"]["ops"][1]) for s in rng)
         ctx.ob("R04.1", "read_payload_size/scan-bounded-by-min(len,max_len)", ok, site=fn.site(fn.entry), cfg=fx.cfg,
                detail="the loop range end is the min(..) result: the index stays inside the buffer and the scan ends after the longest varint")
+        # NotEnoughBytes (the caller then reads one more byte into its fixed size buffer) only while len < max_len
+        def is_blen(f, o):
+            return any(c.dest[0] in slice_locals(f, o, strict=True) for c in f.calls(r"slice::(<impl \[T\]>::)?len$") if re.match(r"^&?_1\*?$", f.origin(c.args[0])))
+
+        def is_maxlen(f, o):
+            return any(r[0] == "call" and r[1].endswith("unsigned_varint::encode::usize_buffer") for r in f.roots(o)) and not is_blen(f, o)
+        lt = {(sw, lab) for sw, lab, rel, cn in guards.edge_facts(fn, is_blen, is_maxlen) if rel == "<"}
+        neb = [n for n, s2 in fn.aggregates(r"ReadError$", "NotEnoughBytes")]
+        ctx.anchor("R04.1", "read_payload_size: NotEnoughBytes aggregate + len<max_len comparison", min(len(neb), len(lt)), 1, cfg=fx.cfg)
+        ctx.ob("R04.1", "read_payload_size/NotEnoughBytes-only-if-len<max_len", bool(lt) and all(n not in fn.reach([fn.entry], cut=lt) for n in neb), site=fn.site(neb[0]) if neb else fn.site(fn.entry), cfg=fx.cfg,
+               detail="with len == max_len and no terminating byte the answer must be Overflow: the caller's size buffer holds exactly max_len bytes")
         il = fn.calls(r"unsigned_varint::decode::is_last$")
         oks = [n for n, sh in fn.exits(r"^Ok") if any(s.startswith("Ok") for s in sh)]
         ok = bool(il) and all(any(fn.only_via(n, sw, [t]) for sw, t, f in fn.bool_tests(il[0].dest[0])) for n in oks) and bool(oks)
@@ -224,6 +235,22 @@ def _flush_on_ok(ctx, fx, fn, name):
 def r04_3(ctx, fx):
     fn = ctx.fn(fx, S + "new", "R04.3")
     if fn is not None:
+        # the varint size buffer holds as many bytes as the longest varint (usize_buffer().len() == 10)
+        n_ref, ver = None, "type-checked"
+        rps = fx.fn("substream::read_payload_size")
+        if rps is not None:
+            for c in rps.calls(r"unsigned_varint::encode::usize_buffer$"):
+                mm = re.match(r"\[u8; (\d+)\]", rps.locals[c.dest[0]])
+                if mm:
+                    n_ref = int(mm.group(1))
+        adt0 = fx.adts.get("substream::Substream")
+        f0 = [f["name"] for v in (adt0 or {}).get("variants", []) for f in v.get("fields", [])]
+        ag0 = fn.aggregates(r"^substream::Substream$")
+        if ag0 and "size_vec" in f0:
+            zs = [c for c in fn.calls(r"BytesMut::zeroed$") if c.dest[0] in slice_locals(fn, ag0[0][1]["rv"]["ops"][f0.index("size_vec")])]
+            v = fn.const_value(zs[0].args[0]) if zs else None
+            ctx.ob("R04.3", "Substream::new/size_vec-holds-the-longest-varint", n_ref is not None and v is not None and v >= n_ref, site=fn.site(fn.entry), cfg=fx.cfg,
+                   detail="size_vec = zeroed(%s); usize_buffer() has type [u8; %s] (%s)" % (v, n_ref, ver))
         csw = [sw for sw in fn.discr_switches() if sw[2] and sw[2].endswith("ProtocolCodec")]
         aggs = fn.aggregates(r"^substream::Substream$")
         ctx.anchor("R04.3", "Substream::new: aggregate", len(aggs), 1, cfg=fx.cfg)
